@@ -23,9 +23,10 @@ Proof. exact set_payload_entry. Qed.
    counter and encoded (encrypted, MIC'd) under the device's own session keys *)
 Theorem C06_one_frame_per_uplink :
   forall (E D : list N -> list N -> list N) apps st f rx n now r,
+    (forall k b, length (E k b) = 16%nat) ->
     ds_row st = Some r -> fb_down st -> valid_datr rx ->
     uplink_summary E st r f (l_uplink E D apps st f rx n now).
-Proof. exact l_uplink_summary. Qed.
+Proof. intros E D apps st f rx n now r HE. now apply l_uplink_summary. Qed.
 
 (* no device ever receives data queued for another: an uplink touches, and emits for, only the
    devices whose key verified it (each handler works on its own device's queue and buffer entry) *)
